@@ -102,3 +102,7 @@ func pubsubCase(c *ctx, sub uint64, class string) {
 	_ = form.NS
 	_ = xmpp.Ready
 }
+
+func contextTimeout(d time.Duration) (context.Context, context.CancelFunc) {
+	return context.WithTimeout(context.Background(), d)
+}
